@@ -50,6 +50,10 @@ type Unit struct {
 	cellStatic map[string]Val
 	hyps      []hyp
 	ghostSyms []string
+	witnesses []string
+	collectW  bool
+	skReuse   []string
+	skPos     int
 	freshRefs map[string]bool
 	keyElem   map[string]types.Type // element type of heap keys (for heap typing axioms)
 	Timeout   int
